@@ -1,15 +1,7 @@
 """What each check claims (MANIFEST level text / notes / technique).  One place, regenerated into
 MANIFEST.json by tools/gen_manifest.py."""
 
-NOT_APPLICABLE = {
-    "C09": "Soundness/completeness of the Dor-Tarsi sink condition and of the four Meek rules over all PDAGs is a theorem "
-           "about the rule set, not a shape of the code: two implementations with identical dataflow differ only in whether "
-           "a subset test is '<= adj(y)' or 'is a clique', and only a graph-theoretic proof or exhaustive evaluation "
-           "separates them. No finite abstract domain over the source captures 'has a consistent extension'; running or "
-           "model-checking the code would be a different technique family. The structural parts of these functions "
-           "(index typing of pdag_to_dag, rule-argument/store agreement in maximally_orient, ValueError propagation, "
-           "non-mutation) are checked under C08, C10 and C14.",
-}
+NOT_APPLICABLE = {}
 
 _T = "sound structural necessary conditions of the property, decided exhaustively over the current source of /repo " \
      "(every rule instance listed in the evidence); not a behavioural proof. An entry point behind user-defined decorators is " \
@@ -87,6 +79,21 @@ CLAIMS = {
              "choice as a set predicate over pa(y), {x}, pa(x) in all admissible worlds).",
         note="Not decided: that an algorithm of this shape marks exactly the compelled edges (Chickering's theorem).",
         technique="static analysis: zero-pattern taint, writer/reader constant agreement, exception propagation"),
+    "C09": dict(
+        text=_T + "Narrow: decides that the code *is* Dor-Tarsi's search and Meek's rules, clause by clause - not the theorems about them. "
+             "pdag_to_dag: the node removed in a round is childless in the remaining graph (set predicate over ch(i, P), both worlds) and, for "
+             "every neighbour y (quantifier and domain read from the comprehension), adj(i) - {y} <= adj(y) (every admissible Venn world of adj(i), "
+             "{y}, adj(y), neighbors(i)), both joined by `and`; the scan tries every remaining node (from 0, one step exactly when not admissible, "
+             "while i < len(P)); ValueError exactly when a scan fails while nodes remain (path condition of the raise); result = directed part + the "
+             "sink's undirected edges towards it, under real node names while matrix and name list shrink together. has_consistent_extension: the "
+             "2-row table True <=> the search returns, False <=> it raises ValueError, nothing else caught. maximally_orient: fails first for PDAGs "
+             "without extension, works on a copy, candidates = undirected edges, a branch guarded by rule_1..4(a, b, P) clears exactly P[b, a], all four "
+             "rules in both directions, repeated until a pass orients nothing; rule_1 / rule_2 equal Meek's rules as set predicates in every Venn world "
+             "(also against the other node relations when the code uses those), rule_3 / rule_4 role by role; pa / ch / neighbors / adj by their pointwise tables.",
+        note="Not decided: that Dor-Tarsi's condition characterises extendability, that rules 1-4 are sound and complete with background knowledge (the "
+             "theorems the property rests on), and termination; these need a proof or exhaustive evaluation, which is another technique family.",
+        technique="static analysis: exhaustive Venn-world tables of set predicates extracted from symbolic terms, path-condition (dominance) rules, index-orientation agreement, pointwise sign tables",
+        design_ref="DESIGN.md §4 C09, §10.26"),
     "C10": dict(
         text=_T + "Narrow: decides zero-pattern dependence of imec/dag_to_icpdag, the I ⊆ [p] and undirected-edge-at-target "
              "guards, orientation agreement of the edges cleared at targets and in maximally_orient, that the chain filter "
